@@ -567,11 +567,12 @@ class RTable:
             out = []
             for i in range(n):
                 x, lo, hi = a[0][i], a[1][i], a[2][i]
-                # max(min(x, hi), lo) for non-null x (bounds are non-null constants)
+                # docstring: for non-null x equivalent to pdt.max(pdt.min(x, hi), lo); the horizontal min / max
+                # skip nulls, so a null bound is no bound
                 ty, (x, lo, hi) = K.unify([x, lo, hi])
-                v = K.If(K._val_cmp(">", ty, x.val, hi.val), hi.val, x.val)
-                v = K.If(K._val_cmp("<", ty, v, lo.val), lo.val, v)
-                out.append(Cell(ty, K.Or(x.null, lo.null, hi.null), v))
+                v = K.If(K.And(K.Not(hi.null), K._val_cmp(">", ty, x.val, hi.val)), hi.val, x.val)
+                v = K.If(K.And(K.Not(lo.null), K._val_cmp("<", ty, v, lo.val)), lo.val, v)
+                out.append(Cell(ty, x.null, v))
             return out
         if op == "round":
             d = e.args[1].v
